@@ -156,6 +156,28 @@ def generate(repo: pathlib.Path) -> dict[str, str]:
     if key_l is None:
         raise Shape("construct_newobj: cannot find data.pop(<key>)")
 
+    # ---- helpers.RE_VALID_UUID: a single character class repeated with +
+    hsrc = (repo / "capellambse" / "helpers.py").read_text()
+    hv = _find_assign(ast.parse(hsrc), "RE_VALID_UUID")
+    if not (isinstance(hv, ast.Call) and ast.unparse(hv.func) == "re.compile" and len(hv.args) == 1
+            and isinstance(hv.args[0], ast.Constant) and isinstance(hv.args[0].value, str)):
+        raise Shape("RE_VALID_UUID is not re.compile(<literal>)")
+    pat = hv.args[0].value
+    if not (pat.startswith("[") and pat.endswith("]+") and "[" not in pat[1:] and "]" not in pat[1:-2]
+            and "\\" not in pat and not pat.startswith("[^")):
+        raise Shape(f"RE_VALID_UUID pattern {pat!r} is not a plain character class with +")
+    body_, ranges, i = pat[1:-2], [], 0
+    while i < len(body_):
+        if i + 2 < len(body_) and body_[i + 1] == "-":
+            ranges.append((ord(body_[i]), ord(body_[i + 2])))
+            i += 3
+        else:
+            ranges.append((ord(body_[i]), ord(body_[i])))
+            i += 1
+    mfn = _func(ast.parse(hsrc), "is_uuid_string")
+    if "RE_VALID_UUID.fullmatch(string)" not in ast.unparse(mfn) or "isinstance(string, str)" not in ast.unparse(mfn):
+        raise Shape("is_uuid_string no longer is `isinstance(str) and RE_VALID_UUID.fullmatch`")
+
     out = ["(* GENERATED by tools/gen_decl.py from capellambse/decl.py — do not edit *)",
            "From Coq Require Import NArith List Bool.", "Import ListNotations.", "Open Scope N_scope.",
            "(* op codes: create=0 extend=1 set=2 sync=3 delete=4 *)",
@@ -167,5 +189,7 @@ def generate(repo: pathlib.Path) -> dict[str, str]:
            f"Definition NEWOBJ_LOAD_KEY : list N := {coq_str(key_l)}.",
            f"Definition NEWOBJ_DUMP_ONLY_IF_TRUTHY : bool := {'true' if guarded else 'false'}.",
            f"Definition NEWOBJ_LOAD_REQUIRED : bool := {'true' if required else 'false'}.",
+           "(* helpers.RE_VALID_UUID = [ranges]+ *)",
+           "Definition UUID_RANGES : list (N * N) := [" + ";".join(f"({a}, {b})" for a, b in ranges) + "].",
            ""]
     return {"Decl_consts.v": "\n".join(out)}
